@@ -86,16 +86,10 @@ Definition res_eqb (a b : option val) : bool := option_eqb val_eqb a b.
 
 (** ** Cases *)
 Inductive fn := FAsdict | FAstuple | FNgAsdict | FNgAstuple | FRound.
-(** [MBoth]: the observation must equal the code-shaped model and the reference;
-    [MFaithful] / [MIdeal]: only one of them (inputs outside the guard of
-    [asdict_reference], where the two are known to differ). *)
-Inductive cmode := MBoth | MFaithful | MIdeal.
-
 Record case := {
   c_classes : list (list field * bool);   (* per class: fields, hashable-by-value *)
   c_nts : list nat;                       (* arity of each namedtuple class *)
   c_fn : fn;
-  c_mode : cmode;
   c_recurse : bool;
   c_retain : bool;
   c_filter : filt;
@@ -137,12 +131,11 @@ Definition run_ideal (c : case) : option val :=
 
 Definition model_of (c : case) : option val * option val := (run_faithful c, run_ideal c).
 
+(** The observation must equal the code-shaped model and the reference
+    specification (the two are proved equal on well-formed inputs:
+    [asdict_reference], [astuple_reference]). *)
 Definition check_case (c : case) : bool :=
-  match c_mode c with
-  | MBoth => res_eqb (run_faithful c) (c_seen c) && res_eqb (run_ideal c) (c_seen c)
-  | MFaithful => res_eqb (run_faithful c) (c_seen c)
-  | MIdeal => res_eqb (run_ideal c) (c_seen c)
-  end.
+  res_eqb (run_faithful c) (c_seen c) && res_eqb (run_ideal c) (c_seen c).
 
 (** Short constructor for case literals: the class/namedtuple tables are bound
     once in the header the harness generates. *)
